@@ -18,16 +18,12 @@ LEVEL_NOTE = "Not decided: the balance >= ledger inequality as a number; roundin
 FM = "farm_manager"
 FLOORS = {"WHO-sends": 10, "PROV-claim-recorded": 1}
 
-# variant -> set of (function suffix, recipient origins)
+# variant -> multiset of recipient origins of the BankMsg::Send constructors reachable from it
 SENDS = {
-    ("Claim",): {("farm::commands::claim", ("info.sender",))},
-    ("ManageFarm", ".action", "Create"): {("manager::commands::close_farms", ("Store(FARMS).owner",)),
-                                          ("helpers::process_farm_creation_fee", ("info.sender",)),
-                                          ("helpers::process_farm_creation_fee", ("Store(CONFIG).fee_collector_addr",))},
-    ("ManageFarm", ".action", "Close"): {("manager::commands::close_farms", ("Store(FARMS).owner",))},
-    ("ManagePosition", ".action", "Withdraw"): {("position::helpers::create_penalty_share_msg", ("Store(FARMS).owner",)),
-                                                ("position::helpers::create_penalty_share_msg", ("Store(CONFIG).fee_collector_addr",)),
-                                                ("position::commands::withdraw_position", ("Store(POSITIONS).receiver",))},
+    ("Claim",): [("info.sender",)],
+    ("ManageFarm", ".action", "Create"): [("Store(CONFIG).fee_collector_addr",), ("Store(FARMS).owner",), ("info.sender",)],
+    ("ManageFarm", ".action", "Close"): [("Store(FARMS).owner",)],
+    ("ManagePosition", ".action", "Withdraw"): [("Store(CONFIG).fee_collector_addr",), ("Store(FARMS).owner",), ("Store(POSITIONS).receiver",)],
 }
 
 
@@ -36,14 +32,11 @@ def run(W, chk):
     entries = [("execute", vp) for vp in paths] + [("reply", None), ("instantiate", None), ("migrate", None)]
     for which, vp in entries:
         A = W.run(FM, which, vp)
-        got = set()
-        for e in A.aggs(r"BankMsg::Send$"):
-            to = tuple(sorted(all_origins(A.d(field_val(e, "to_address")))))
-            got.add((e.fn.split("::", 1)[1], to))
-        want = SENDS.get(vp, set()) if which == "execute" else set()
+        got = sorted(tuple(sorted(all_origins(A.d(field_val(e, "to_address"))))) for e in A.aggs(r"BankMsg::Send$"))
+        want = sorted(SENDS.get(vp, [])) if which == "execute" else []
         lab = "/".join(vp or (which,))
-        chk.expect(got == want, "WHO-sends", lab, "Send constructors: %s" % sorted(got),
-                   "outgoing transfers differ from the table: unexpected %s, missing %s" % (sorted(got - want), sorted(want - got)), A.entry)
+        chk.expect(got == want, "WHO-sends", lab, "transfers to: %s" % got,
+                   "outgoing transfers differ from the table: found recipients %s, expected %s" % (got, want), A.entry)
         others = [e for e in A.outflow_aggs() if not re.search(r"BankMsg::Send$", e.name)] + \
                  [e for e in A.outflow_calls() if "SubMsg" not in e.name]
         chk.expect(not others, "WHO-sends", lab + ".other", "no other kind of outgoing message", "other outflows: %s" % [e.name for e in others][:3],
